@@ -72,6 +72,9 @@ func runLabels(c *LabelCase) ([]byte, [][][]string, error) {
 }
 
 func checkLabels(c *LabelCase, body []byte, stored [][][]string) *Bad {
+	if b := rawUTF8(c.Endpoint, body); b != nil {
+		return b
+	}
 	doc, err := parseOne(body)
 	if err != nil {
 		if c.Endpoint == "series" {
